@@ -149,7 +149,10 @@ def metamorphic_search(ctx, shim, r, per_font, pc, pt, only_aat, name, verifier,
         xs.sort(key=lambda x: x[0])
         rp, txt, o2 = describe(xs[0][1], xs[0][2])
         kn[cls] = {"count": len(xs), "example": rp}
-        F.note_known(ctx, name, cls, len(xs), f"{txt}: {o2.get('diff')}")
+        # a documented finding class: reported as a violation whose replay carries the class; known_findings.json
+        # (committed, never written at run time) turns it into a KNOWN-FINDING line
+        rp = dict(rp); rp["class"] = cls; rp["family"] = "break-safety" if kind == "break" else "concat-redistribution"
+        ctx.violation(f"{what} ({name}, class {cls}: {len(xs)} case(s)): {o2.get('diff')} — {txt}", rp)
     ctx.note_search(name, len(sh), checked, outcome=stat, cuts_made=cuts, deviations=len(bad),
                     known_finding_classes=kn, fonts=len(fs.groups), rule=rule)
 
